@@ -200,7 +200,7 @@ func c03(g *Gen) {
 		mkSystems := func() namer.NameSystems {
 			return namer.NameSystems{"public": namer.NewPublicNamer(1), "private": namer.NewPrivateNamer(0), "raw": namer.NewRawNamer("", nil)}
 		}
-		order := g.Pick([]string{"public", "private", "raw", "raw", "nosuch"})
+		order := []string{"public", "private", "raw", "raw", "nosuch"}[i%5] // every fifth context: an order name that no naming system has
 		ctx, err := c03context(g, i, prog, mkSystems(), order)
 		if err != nil {
 			panic(err)
